@@ -59,6 +59,16 @@ func (ts *TxSource) program(size int) []byte {
 	t := ts.W.T
 	var prog []simmod.Instr
 	n := simkit.Int(t, "txinstr", 0, 3)
+	if simkit.Chance(t, "txpattern", 1, 5) {
+		// one key touched several times by one transaction: removed and written again, written twice, ...
+		n = 0
+		pat := [][]byte{{simmod.OpDel, simmod.OpSet}, {simmod.OpSet, simmod.OpSet}, {simmod.OpDel, simmod.OpSet, simmod.OpDel}, {simmod.OpSet, simmod.OpDel}}[simkit.Int(t, "txpat", 0, 3)]
+		store, sub, key := byte(1+simkit.Int(t, "txstore", 0, 1)), byte(simkit.Int(t, "txsub", 0, 1)), []byte{byte(simkit.Int(t, "txkey", 0, 5))}
+		for _, op := range pat {
+			prog = append(prog, simmod.Instr{Op: op, Store: store, Sub: sub, Key: key, Val: simkit.Bytes(t, "txval", 0, 6)})
+		}
+		simkit.Probe("tx_touching_one_key_repeatedly")
+	}
 	for i := 0; i < n; i++ {
 		op := []byte{simmod.OpSet, simmod.OpSet, simmod.OpDel, simmod.OpEvent, simmod.OpEventU}[simkit.Int(t, "txop", 0, 4)]
 		prog = append(prog, simmod.Instr{Op: op, Store: byte(1 + simkit.Int(t, "txstore", 0, 1)), Sub: byte(simkit.Int(t, "txsub", 0, 1)),
